@@ -48,6 +48,11 @@ fn strat_from(v: &Value, seed: u64) -> Strat {
     if let Some(sc) = v.get("script").and_then(|x| x.as_array()) {
         s.script = sc.iter().map(|x| x.as_u64().unwrap_or(0) as u32).collect();
     }
+    if let Some(f) = v.get("follow").and_then(|x| x.as_array()) {
+        s.follow = f.iter().map(|x| x.as_i64().unwrap_or(-2) as i32).collect();
+        s.q_tick = 0.0;
+        s.tick_phase = 1000;
+    }
     s.tick_phase = v.get("tick_phase").and_then(|x| x.as_u64()).unwrap_or(0) as u32;
     s.max_steps = v.get("max_steps").and_then(|x| x.as_u64()).unwrap_or(100_000);
     s
@@ -297,8 +302,8 @@ fn main() {
                         let d: Vec<String> = out.decisions.iter().map(|d| d.to_string()).collect();
                         writeln!(
                             m,
-                            "{{\"x\":{},\"prog\":{},\"seed\":{},\"steps\":{},\"events\":{},\"stuck\":{},\"budget\":{},\"diverged\":{},\"strat\":{{\"seed\":{},\"p_switch\":{},\"spin_bias\":{},\"q_tick\":{},\"p_spurious\":{},\"max_spurious\":{},\"parallelism\":{}}},\"decisions\":[{}]}}",
-                            x, pi, seed, out.steps, out.log.len(), out.stuck, out.over_budget, out.diverged,
+                            "{{\"x\":{},\"prog\":{},\"seed\":{},\"steps\":{},\"events\":{},\"stuck\":{},\"budget\":{},\"diverged\":{},\"follow_div\":{},\"strat\":{{\"seed\":{},\"p_switch\":{},\"spin_bias\":{},\"q_tick\":{},\"p_spurious\":{},\"max_spurious\":{},\"parallelism\":{}}},\"decisions\":[{}]}}",
+                            x, pi, seed, out.steps, out.log.len(), out.stuck, out.over_budget, out.diverged, out.follow_div,
                             seed, strat.p_switch, strat.spin_bias, strat.q_tick, strat.p_spurious, strat.max_spurious, strat.parallelism,
                             d.join(",")
                         )
